@@ -457,6 +457,15 @@ class CallMixin:
                     lt = z3.Or(m_callee[i] < m_top[i], z3.And(m_callee[i] == m_top[i], lt))
                 self.oblige(st, '%s/termination:measure-decreases-and-is-bounded' % con.qual,
                             z3.And(z3.And([x >= 0 for x in m_callee]), lt), 'termination')
+        # a function that promises its callers to keep shape facts (preserves) may only call heap-writing callees that
+        # promise the same (their own writes are checked against the footprint where they are verified)
+        top_con = self.cur
+        if top_con is not None and top_con.preserves and st.fn == st.ghost.get('$top'):
+            cmods = con.modifies(cx) if callable(con.modifies) else con.modifies
+            missing = set(top_con.preserves) - set(con.preserves)
+            if cmods and missing:
+                self.oblige(st, '%s/call:%s/preserves:callee-keeps-%s' % (st.ghost.get('$top', '?'), con.qual, '+'.join(sorted(missing))),
+                            z3.BoolVal(False), 'frame')
         out = []
         outcomes = [('ret', None)] + [('exc', e) for e in con.raises]
         vals = {}
